@@ -5,6 +5,9 @@ import (
 	"fmt"
 	"math/rand"
 	"strings"
+	"sync"
+
+	jsonpatch "github.com/evanphx/json-patch/v5"
 
 	"verifharness/jsonread"
 	"verifharness/lib"
@@ -80,27 +83,26 @@ func renderOp(sp jsonread.Spelling, raw json.RawMessage) (string, *wireOp, error
 }
 
 func renderPatch(sp jsonread.Spelling, ops []json.RawMessage) ([]byte, []*wireOp, error) {
-	var b strings.Builder
 	var parsed []*wireOp
-	b.WriteByte('[')
-	for i, o := range ops {
-		if i > 0 {
-			b.WriteByte(',')
-		}
+	var texts []string
+	for _, o := range ops {
 		s, op, err := renderOp(sp, o)
 		if err != nil {
 			return nil, nil, err
 		}
 		parsed = append(parsed, op)
-		b.WriteString(s)
+		texts = append(texts, s)
 	}
-	b.WriteByte(']')
-	return []byte(b.String()), parsed, nil
+	return joinPatch(texts), parsed, nil
+}
+
+func joinPatch(texts []string) []byte {
+	return []byte("[" + strings.Join(texts, ",") + "]")
 }
 
 func cpString(cp []int) string { return string(jsonread.CpFromWire(cp)) }
 
-// sigOf computes what known-finding matchers may look at: only facts about the failing case.
+// patchSig computes what known-finding matchers may look at: only facts about the failing case.
 func patchSig(ops []*wireOp, o lib.Opts, kind string, lab string) map[string]string {
 	sig := map[string]string{"fam": "patch", "kind": kind, "lab": lab}
 	var kinds, paths, froms []string
@@ -114,7 +116,10 @@ func patchSig(ops []*wireOp, o lib.Opts, kind string, lab string) map[string]str
 	sig["ops"] = strings.Join(kinds, ",")
 	sig["paths"] = strings.Join(paths, ",")
 	sig["froms"] = strings.Join(froms, ",")
-	sig["lastop"] = kinds[len(kinds)-1]
+	sig["lastop"] = ""
+	if len(kinds) > 0 {
+		sig["lastop"] = kinds[len(kinds)-1]
+	}
 	sig["ensure"] = fmt.Sprint(o.Ensure)
 	sig["allow"] = fmt.Sprint(o.Allow)
 	sig["esc"] = fmt.Sprint(o.Esc)
@@ -125,6 +130,7 @@ type patchCase struct {
 	line     *patchLine
 	docText  []byte
 	patch    []byte
+	opTexts  []string
 	ops      []*wireOp
 	spelling string
 }
@@ -142,6 +148,8 @@ func (c *patchCase) caseMap(extra map[string]interface{}) map[string]interface{}
 	}
 	return m
 }
+
+var seenSeeds sync.Map
 
 // checkPatchLine executes one printed transition against the real library and compares.
 func (e *engine) checkPatchLine(worker int, raw []byte) error {
@@ -172,24 +180,40 @@ func (e *engine) checkPatchLine(worker int, raw []byte) error {
 			for _, b := range raw {
 				h = h*131 + int64(b)
 			}
-			sp = jsonread.Spelling{Rnd: rand.New(rand.NewSource(h ^ e.seed))}
+			sp = jsonread.Spelling{Rnd: rand.New(rand.NewSource(h ^ e.seed)), WsOnly: e.extra["wsonly"] == "1"}
 		}
-		pt, ops, err := renderPatch(sp, ln.Ops)
-		if err != nil {
-			return err
+		c := &patchCase{line: &ln, spelling: spn}
+		for _, o := range ln.Ops {
+			s, op, err := renderOp(sp, o)
+			if err != nil {
+				return err
+			}
+			c.ops = append(c.ops, op)
+			c.opTexts = append(c.opTexts, s)
 		}
-		c := &patchCase{line: &ln, docText: sp.RenderDoc(seed), patch: pt, ops: ops, spelling: spn}
-		if spn == "respelled" && c.docText[0] != '{' && c.docText[0] != '[' && !e.leadingWS {
-			// leading white space before the root is C16's business (known defect F-11 before its fix)
+		c.patch = joinPatch(c.opTexts)
+		c.docText = sp.RenderDoc(seed)
+		if spn == "respelled" && !e.leadingWS {
 			c.docText = sp.Render(seed)
 		}
-		e.checkPatchCase(worker, c, want)
+		e.checkPatchCase(worker, c, seed, want)
+	}
+	// the empty patch, once per (seed, options): an identity on value, order and literals
+	if len(ln.Ops) == 1 {
+		key := string(ln.Seed) + fmt.Sprint(ln.Opts)
+		if _, loaded := seenSeeds.LoadOrStore(key, true); !loaded {
+			el := ln
+			el.Ops, el.Lab, el.Status, el.Cls, el.Doc, el.Lo, el.Hi, el.Skipped = nil, "EmptyPatch", "run", "", ln.Seed, 0, 0, nil
+			c := &patchCase{line: &el, spelling: "canonical", patch: []byte("[]"), docText: jsonread.Canonical.Render(seed)}
+			e.rep.Label("EmptyPatch")
+			e.checkPatchCase(worker, c, seed, seed)
+		}
 	}
 	// distinct non-trivial: the operation sequence changes the document or fails
 	if ln.Status != "run" || string(ln.Doc) != string(ln.Seed) {
 		e.rep.Nontrivial(string(ln.Seed) + fmt.Sprint(ln.Opts) + fmt.Sprint(ln.Ops))
 	}
-	if len(ln.Ops) >= 2 {
+	if len(ln.Ops) >= 2 || ln.Status != "run" {
 		e.rep.Sample(map[string]interface{}{"doc": string(jsonread.Canonical.Render(seed)), "patch": string(mustPatch(ln.Ops)),
 			"opts": ln.Opts, "spec_label": ln.Lab, "spec_status": ln.Status, "spec_class": ln.Cls})
 	}
@@ -201,98 +225,291 @@ func mustPatch(ops []json.RawMessage) []byte {
 	return b
 }
 
-func (e *engine) checkPatchCase(worker int, c *patchCase, want *jsonread.Value) {
+type applyResult struct {
+	out        []byte
+	aerr, derr error
+	pan        string
+}
+
+// the package-level defaults are process-wide: runs that set them exclude each other
+var defaultsMu sync.Mutex
+
+func (e *engine) runApply(worker int, doc, patch []byte, o lib.Opts, viaDefaults bool, what func() *lib.Violation) applyResult {
+	var r applyResult
+	r.pan = e.wd.Guard(worker, what, func() {
+		if viaDefaults {
+			defaultsMu.Lock()
+			defer defaultsMu.Unlock()
+			oldL, oldN := jsonpatch.AccumulatedCopySizeLimit, jsonpatch.SupportNegativeIndices
+			jsonpatch.AccumulatedCopySizeLimit, jsonpatch.SupportNegativeIndices = int64(o.Limit), o.Neg
+			defer func() { jsonpatch.AccumulatedCopySizeLimit, jsonpatch.SupportNegativeIndices = oldL, oldN }()
+			p, derr := jsonpatch.DecodePatch(patch)
+			if derr != nil {
+				r.derr = derr
+				return
+			}
+			r.out, r.aerr = p.Apply(doc)
+			return
+		}
+		r.out, r.aerr, r.derr = lib.Apply(doc, patch, o, "")
+	})
+	e.rep.Count("executions", 1)
+	return r
+}
+
+func (e *engine) checkPatchCase(worker int, c *patchCase, seed, want *jsonread.Value) {
 	ln := c.line
 	prop := e.prop
-	var out []byte
-	var aerr, derr error
 	viol := func(kind, detail string, extra map[string]interface{}) *lib.Violation {
 		return &lib.Violation{Property: prop, Kind: kind, Detail: detail,
 			Sig: patchSig(c.ops, ln.Opts, kind, ln.Lab), Case: c.caseMap(extra)}
 	}
-	pan := e.wd.Guard(worker, func() *lib.Violation { return viol("hang", "", nil) }, func() {
-		out, aerr, derr = lib.Apply(c.docText, c.patch, ln.Opts, "")
-	})
-	e.rep.Count("executions", 1)
-	if pan != "" {
-		e.rep.Report(viol("panic", "Apply panicked: "+firstLine(pan), map[string]interface{}{"panic": pan}))
+	hang := func() *lib.Violation { return viol("hang", "", nil) }
+	r := e.runApply(worker, c.docText, c.patch, ln.Opts, false, hang)
+	if r.pan != "" {
+		e.rep.Report(viol("panic", "Apply panicked: "+firstLine(r.pan), map[string]interface{}{"panic": r.pan}))
 		return
 	}
-	if derr != nil {
-		e.rep.Report(viol("decode-reject", "DecodePatch rejected a well-formed RFC 6902 patch: "+derr.Error(), nil))
+	if r.derr != nil {
+		e.rep.Report(viol("decode-reject", "DecodePatch rejected a well-formed RFC 6902 patch: "+r.derr.Error(), nil))
 		return
 	}
-	ec := lib.Classify(aerr)
-	obs := map[string]interface{}{"out": string(out), "out_nil": out == nil, "err": errString(aerr), "errc": ec}
+	ec := lib.Classify(r.aerr)
+	obs := map[string]interface{}{"out": string(r.out), "out_nil": r.out == nil, "err": errString(r.aerr), "errc": ec}
 
-	switch ln.Status {
-	case "run":
-		if aerr != nil {
-			e.rep.Report(viol("unexpected-error", "the reference applies the patch, Apply returned an error: "+aerr.Error(), obs))
-			return
-		}
-		got, perr := jsonread.Parse(out)
-		if perr != nil {
-			e.rep.Report(viol("malformed-output", "output is not well-formed JSON: "+perr.Error(), obs))
-			return
-		}
-		switch prop {
-		case "C05":
-			if got.OrdKey() != want.OrdKey() {
-				if got.CanonKey() == want.CanonKey() {
-					e.rep.Report(viol("order", "member order of the output differs from the reference", obs))
-				} else {
-					e.rep.Report(viol("value", "output is not the reference document (ordered, literal-exact)", obs))
+	// outcome() judges one real result against an expected (status, document)
+	outcome := func(r applyResult, status string, want *jsonread.Value, what string, obs map[string]interface{}) bool {
+		switch status {
+		case "run":
+			if r.aerr != nil {
+				e.rep.Report(viol("unexpected-error", what+"the reference applies the patch, Apply returned an error: "+r.aerr.Error(), obs))
+				return false
+			}
+			got, perr := jsonread.Parse(r.out)
+			if perr != nil {
+				e.rep.Report(viol("malformed-output", what+"output is not well-formed JSON: "+perr.Error(), obs))
+				return false
+			}
+			if prop == "C05" {
+				if got.OrdKey() != want.OrdKey() {
+					if got.CanonKey() == want.CanonKey() {
+						e.rep.Report(viol("order", what+"member order of the output differs from the reference", obs))
+					} else {
+						e.rep.Report(viol("value", what+"output is not the reference document (ordered, literal-exact)", obs))
+					}
+					return false
 				}
+			} else if got.CanonKey() != want.CanonKey() {
+				e.rep.Report(viol("value", what+"output is not structurally equal to the reference document", obs))
+				return false
 			}
-		default:
-			if got.CanonKey() != want.CanonKey() {
-				e.rep.Report(viol("value", "output is not structurally equal to the reference document", obs))
+		case "err":
+			if r.aerr == nil {
+				e.rep.Report(viol("unexpected-success", what+"the reference rejects the patch ("+ln.Lab+"), Apply succeeded", obs))
+				return false
+			}
+			if r.out != nil {
+				e.rep.Report(viol("output-on-failure", what+"a failing Apply returned a non-nil document", obs))
+				return false
 			}
 		}
-	case "err":
-		if aerr == nil {
-			e.rep.Report(viol("unexpected-success", "the reference rejects the patch ("+ln.Lab+"), Apply succeeded", obs))
-			return
+		return true
+	}
+	if !outcome(r, ln.Status, want, "", obs) {
+		return
+	}
+
+	switch prop {
+	case "C08":
+		if ln.Status == "err" {
+			e.checkErrorClass(c, ec, "", obs, viol)
+			e.checkTails(worker, c, viol, hang)
 		}
-		if prop == "C08" {
-			e.checkErrorClass(c, ec, out, obs, viol)
-		}
+	case "C12":
+		e.checkCopyLimit(worker, c, r, ec, want, obs, viol, hang, outcome)
+	case "C13":
+		e.checkSkip(worker, c, r, seed, obs, viol, hang)
+	case "C15":
+		e.checkBytes(worker, c, r, want, obs, viol, hang)
 	}
 }
 
 // checkErrorClass is C08 for one failing behaviour.
-func (e *engine) checkErrorClass(c *patchCase, ec lib.ErrClass, out []byte, obs map[string]interface{},
+func (e *engine) checkErrorClass(c *patchCase, ec lib.ErrClass, what string, obs map[string]interface{},
 	viol func(string, string, map[string]interface{}) *lib.Violation) {
 	ln := c.line
-	if out != nil {
-		e.rep.Report(viol("output-on-failure", "a failing Apply returned a non-nil document", obs))
-	}
 	switch ln.Cls {
 	case "TestFailed":
 		if !ec.Test {
-			e.rep.Report(viol("class", "first failing operation is a test that compared unequal, but errors.Is(err, ErrTestFailed) is false", obs))
+			e.rep.Report(viol("class", what+"first failing operation is a test that compared unequal, but errors.Is(err, ErrTestFailed) is false", obs))
 		}
 		if ec.Copy {
-			e.rep.Report(viol("class", "failed test reported as *AccumulatedCopySizeError", obs))
+			e.rep.Report(viol("class", what+"failed test reported as *AccumulatedCopySizeError", obs))
 		}
 	case "CopyLimit":
 		if !ec.Copy {
-			e.rep.Report(viol("class", "copy pushed the total over the limit, but the error is not *AccumulatedCopySizeError", obs))
+			e.rep.Report(viol("class", what+"copy pushed the total over the limit, but the error is not *AccumulatedCopySizeError", obs))
 		}
 		if ec.Test {
-			e.rep.Report(viol("class", "copy over limit reported as ErrTestFailed", obs))
+			e.rep.Report(viol("class", what+"copy over limit reported as ErrTestFailed", obs))
 		}
 	case "Missing":
 		if !ec.Missing {
-			e.rep.Report(viol("class", "absent member / unreachable parent ("+ln.Lab+"), but errors.Is(err, ErrMissing) is false", obs))
+			e.rep.Report(viol("class", what+"absent member / unreachable parent ("+ln.Lab+"), but errors.Is(err, ErrMissing) is false", obs))
 		}
 		if ec.Test || ec.Copy {
-			e.rep.Report(viol("class", "missing location reported as ErrTestFailed / copy-size error", obs))
+			e.rep.Report(viol("class", what+"missing location reported as ErrTestFailed / copy-size error", obs))
 		}
 	case "Unspecified":
 		if ec.Test || ec.Copy {
-			e.rep.Report(viol("class", "failure "+ln.Lab+" reported as ErrTestFailed / copy-size error", obs))
+			e.rep.Report(viol("class", what+"failure "+ln.Lab+" reported as ErrTestFailed / copy-size error", obs))
+		}
+	}
+}
+
+// checkTails: operations after the first failing one have no effect on the outcome (C08).
+// The specification's status is absorbing (FirstFailureWins), so the expected outcome of
+// ops ++ tail is the outcome of ops, whatever the tail is.
+func (e *engine) checkTails(worker int, c *patchCase, viol func(string, string, map[string]interface{}) *lib.Violation, hang func() *lib.Violation) {
+	tails := [][]string{
+		{`{"op":"test","path":"","value":"no document equals this string"}`},                                                  // would fail differently
+		{`{"op":"add","path":"","value":{"tail":1}}`, `{"op":"test","path":"/tail","value":1}`},                                // would succeed
+		{`{"op":"copy","from":"","path":"/tail"}`, `{"op":"remove","path":"/definitely/not/there"}`},                           // copy + missing
+	}
+	for ti, tail := range tails {
+		patch := joinPatch(append(append([]string{}, c.opTexts...), tail...))
+		r := e.runApply(worker, c.docText, patch, c.line.Opts, false, hang)
+		obs := map[string]interface{}{"tail": tail, "patch_with_tail": string(patch), "out": string(r.out), "out_nil": r.out == nil, "err": errString(r.aerr)}
+		if r.pan != "" {
+			e.rep.Report(viol("panic", "Apply with a tail after the failing operation panicked: "+firstLine(r.pan), obs))
+			return
+		}
+		if r.derr != nil {
+			e.rep.Report(viol("decode-reject", "DecodePatch rejected the patch with tail: "+r.derr.Error(), obs))
+			return
+		}
+		if r.aerr == nil || r.out != nil {
+			e.rep.Report(viol("tail-effect", fmt.Sprintf("operations after the first failing one changed the outcome (tail %d): no error or a document returned", ti), obs))
+			return
+		}
+		ec := lib.Classify(r.aerr)
+		obs["errc"] = ec
+		e.checkErrorClass(c, ec, fmt.Sprintf("with tail %d: ", ti), obs, viol)
+	}
+}
+
+// checkCopyLimit is C12.  The specification's sizes (lo/hi: a copied null may weigh 0 or 4)
+// are those of the encoder's spelling (spec/JsonEnc.tla); limits are placed around them.
+func (e *engine) checkCopyLimit(worker int, c *patchCase, r applyResult, ec lib.ErrClass, want *jsonread.Value, obs map[string]interface{},
+	viol func(string, string, map[string]interface{}) *lib.Violation, hang func() *lib.Violation,
+	outcome func(applyResult, string, *jsonread.Value, string, map[string]interface{}) bool) {
+	ln := c.line
+	// "exactly when": the error type must be the copy-size error iff the class is CopyLimit
+	if ln.Status == "err" {
+		if (ln.Cls == "CopyLimit") != ec.Copy {
+			e.rep.Report(viol("class", fmt.Sprintf("spec class %s but errors.As(*AccumulatedCopySizeError) = %v", ln.Cls, ec.Copy), obs))
+		}
+		return
+	}
+	ncopy := 0
+	for _, op := range c.ops {
+		if op.Op == "copy" {
+			ncopy++
+		}
+	}
+	if ncopy == 0 || ln.Opts.Limit != 0 || c.ops[len(c.ops)-1].Op != "copy" {
+		return
+	}
+	// the behaviour succeeded with the check disabled; lo..hi is the total after the last copy
+	type probe struct {
+		limit  int
+		status string
+	}
+	var probes []probe
+	if ln.Lo-1 >= 1 {
+		probes = append(probes, probe{ln.Lo - 1, "err"})
+	}
+	if ln.Hi >= 1 {
+		probes = append(probes, probe{ln.Hi, "run"})
+	}
+	probes = append(probes, probe{ln.Hi + 1, "run"}, probe{ln.Hi + 1000, "run"})
+	for _, pb := range probes {
+		o := ln.Opts
+		o.Limit = pb.limit
+		vias := []bool{false}
+		if o.Esc && !o.Allow && !o.Ensure {
+			vias = append(vias, true) // the package-level default, through Patch.Apply
+		}
+		for _, via := range vias {
+			r2 := e.runApply(worker, c.docText, c.patch, o, via, hang)
+			ec2 := lib.Classify(r2.aerr)
+			obs2 := map[string]interface{}{"limit": pb.limit, "via_package_default": via, "spec_total_lo": ln.Lo, "spec_total_hi": ln.Hi,
+				"out": string(r2.out), "out_nil": r2.out == nil, "err": errString(r2.aerr), "errc": ec2}
+			what := fmt.Sprintf("limit %d (total %d..%d): ", pb.limit, ln.Lo, ln.Hi)
+			e.rep.Label("CopyProbe_" + pb.status)
+			if r2.pan != "" {
+				e.rep.Report(viol("panic", what+"Apply panicked: "+firstLine(r2.pan), obs2))
+				continue
+			}
+			if pb.status == "run" {
+				if ec2.Copy {
+					e.rep.Report(viol("limit-early", what+"the total is within the limit but Apply failed with *AccumulatedCopySizeError", obs2))
+					continue
+				}
+				outcome(r2, "run", want, what, obs2)
+			} else {
+				if r2.aerr == nil {
+					e.rep.Report(viol("limit-late", what+"the total exceeds the limit but Apply succeeded", obs2))
+				} else if !ec2.Copy {
+					e.rep.Report(viol("class", what+"the total exceeds the limit but the error is not *AccumulatedCopySizeError", obs2))
+				} else if r2.out != nil {
+					e.rep.Report(viol("output-on-failure", what+"a patch stopped by the limit returned a document", obs2))
+				}
+			}
+		}
+	}
+}
+
+// checkSkip is C13: (option on, P) against (option off, P minus the removes the specification skipped).
+func (e *engine) checkSkip(worker int, c *patchCase, r applyResult, seed *jsonread.Value, obs map[string]interface{},
+	viol func(string, string, map[string]interface{}) *lib.Violation, hang func() *lib.Violation) {
+	ln := c.line
+	if !ln.Opts.Allow {
+		return
+	}
+	skip := map[int]bool{}
+	for _, i := range ln.Skipped {
+		skip[i] = true
+	}
+	var kept []string
+	for i, t := range c.opTexts {
+		if !skip[i+1] {
+			kept = append(kept, t)
+		}
+	}
+	o := ln.Opts
+	o.Allow = false
+	patch := joinPatch(kept)
+	r2 := e.runApply(worker, c.docText, patch, o, false, hang)
+	obs2 := map[string]interface{}{"on": obs, "off_patch": string(patch), "off_out": string(r2.out), "off_err": errString(r2.aerr), "skipped": ln.Skipped}
+	e.rep.Label(fmt.Sprintf("SkipPairs_%d", len(ln.Skipped)))
+	if r2.pan != "" {
+		e.rep.Report(viol("panic", "Apply (option off, skipped removes deleted) panicked: "+firstLine(r2.pan), obs2))
+		return
+	}
+	if r2.derr != nil {
+		e.rep.Report(viol("decode-reject", "DecodePatch rejected the filtered patch: "+r2.derr.Error(), obs2))
+		return
+	}
+	if (r.aerr == nil) != (r2.aerr == nil) {
+		e.rep.Report(viol("skip-outcome", "option on with P and option off with P minus the skipped removes differ in success/failure", obs2))
+		return
+	}
+	if r.aerr == nil {
+		a, err1 := jsonread.Parse(r.out)
+		b, err2 := jsonread.Parse(r2.out)
+		if err1 != nil || err2 != nil || a.CanonKey() != b.CanonKey() {
+			e.rep.Report(viol("skip-value", "option on with P and option off with P minus the skipped removes give different documents", obs2))
 		}
 	}
 }
